@@ -137,6 +137,12 @@ def c12_cases(tier):
             emit('hdr-w%d-%d' % (w, v), base + shape1 + 'fhdr %d %d %d %d 0 0 0\n' % tuple(a))
     for v in sorted(set([1, 2, 127, 128, 255, 256, 257, 32766, 32767, 32768, 32769, 65534, 65535] + [rnd.randrange(1, 65536) for _ in range(extra)])):
         emit('first-%d' % v, base + 'fshape 1 0 1 1 %d 7 0 0 5\n' % v)
+    # frame rates: arbitrary finite positive patterns (header words 11-12 and POINT:RATE must come back bit for bit)
+    import struct
+    for k in range(40 if tier == 'quick' else 600):
+        e = rnd.randrange(117, 143)          # 2^-10 .. 2^15
+        bits = (e << 23) | rnd.randrange(1 << 23)
+        emit('rate-%08x' % bits, base + 'fshape 2 0 1 2 1 7 0 0 5\nfrawrate %d\n' % bits)
     for n in range(19):
         emit('nevents-%d' % n, base + shape1 + 'fhdr 10 0 0 12345 %d %d 0\n' % (n, 100 + n))
     for k in range(20 if tier == 'quick' else 300):
@@ -209,6 +215,8 @@ C17_LIMITS = {
     'int-max': ('limit 5 %d\n', 32767, [32766, 32767, 32768, 70000]),
     'int-min': ('limit 5 %d\n', -32768, [-32767, -32768, -32769, -70000]),
     'dimensions': ('limit 10 %d\n', 7, [6, 7, 8]),
+    'string-table-255xN': ('limit 13 %d\n', 255, [128, 129, 254, 255]),
+    'int-matrix-255xN': ('limit 14 %d\n', 128, [64, 65, 127, 128]),
     'points': ('limit 6 %d\nprate 8\nlimit 8 2\n', 255, [254, 255, 256, 300]),
     'channels': ('limit 7 %d\nprate 8\narate 1\nlimit 8 2\n', 255, [254, 255, 256, 300]),
     'subframes-x-channels': ('limit 7 255\nlimit 12 %d\nlimit 8 1\n', 257, [256, 257, 258, 300]),
